@@ -136,9 +136,34 @@ def features(rec, idnt, case, **kw):
     return np.asarray(out[0]), list(out[1])
 
 
+KEPT = {}
+
+
 def judge_curve(rec, rng, idnt, case, fitted):
     from nanite.rate.features import IndentationFeatures as IF
     allnames = IF.get_feature_names()
+    # one IndentationFeatures instance is kept for the curve object across
+    # all its states: its methods must describe the current state
+    inst = KEPT.get(id(idnt))
+    if inst is None or inst[0] is not idnt:
+        KEPT.clear()
+        inst = KEPT.setdefault(id(idnt), (idnt, IF(idnt)))
+    try:
+        kept_vals = np.array([float(getattr(inst[1], n)())
+                              for n in allnames])
+        fresh_vals = np.asarray(IF.compute_features(idnt, names=allnames))
+        rec.event("kept feature instance compared with a fresh evaluation")
+        rec.check(np.array_equal(kept_vals, fresh_vals, equal_nan=True),
+                  "kept-instance-stale",
+                  lambda: "an IndentationFeatures instance created earlier "
+                  "for this curve reports %s" % [
+                      (n, a_, b_) for n, a_, b_ in zip(allnames, kept_vals,
+                                                       fresh_vals)
+                      if not (a_ == b_ or (np.isnan(a_) and np.isnan(b_)))]
+                  [:3], case)
+    except BaseException as e:  # noqa
+        rec.event("kept instance / fresh evaluation raised %s (judged "
+                  "below)" % type(e).__name__)
     # -- requested subsets and types
     wt = ["all", "binary", "continuous", ["binary", "continuous"],
           ["continuous", "binary"], ["continuous"]][int(rng.integers(6))]
